@@ -1220,6 +1220,38 @@ theorem nnLine_sound_partial3 {y : YearDecl} {S : SSet} {c : ClassDecl} {l : Lin
     Val.NN v = true ∧ Val.isNum v = true :=
   nnLine_sound_partial2 h inst vs is fs (restFacts_of rfl rfl h3) ha hb v hrun
 
+/-! ## Round 4: `float(int)` of a not-negative int is not negative — proved
+
+`Val.intToFloat` is `Val.intToFloatOf (F64.ofInt i)` (the model definition was split in two for exactly this
+reason: a case split on the abstract option does not make the elaborator normalise `F64.ofInt i`, i.e.
+`i.natAbs * 2^1074`, under a `match`). -/
+
+theorem intToFloatOf_ok (o : Option F64) (f : F64) (h : Val.intToFloatOf o = .ok f) : o = some f := by
+  cases o with
+  | none => cases h
+  | some x => cases h; rfl
+
+theorem intToFloatNN : IntToFloatNN :=
+  fun k f hk h => F64.ofInt_notNeg hk (intToFloatOf_ok _ f h)
+
+/-- what is STILL assumed: `round` preserves sign, and the two key-string facts -/
+structure RestFacts4 (K : SCtx) (ctx : Ctx) : Prop where
+  roundFact : RoundFact
+  fstr : ∀ vs as s, List.Forall₂ Approx vs as → fmtAll vs = .ok s → ∀ cl, fstrKey as = some cl → IsKey (.str s) cl
+  key : ∀ k a n, Approx k a → qualify ctx k = .ok n → (readKey K a).nn = true → keyIn K.S n = true
+
+/-- **Soundness of the sign analysis (`sum` unknown), round 4**: three closed facts left (`RestFacts4`). -/
+theorem nnLine_sound_partial4 {y : YearDecl} {S : SSet} {c : ClassDecl} {l : LineDecl}
+    (h : nnLine y S c l = true) (inst : Option String)
+    (vs : String → Option Val) (is : String → InpRes Val) (fs : String → Bool)
+    (h4 : RestFacts4 (mkK false y S c) { year := y, form := c.name, inst := inst, thresholds := c.thresholds })
+    (ha : ∀ k v, is k = .ok v → Val.NN v = true)
+    (hb : ∀ k v, vs k = some v → keyIn S k = true → Val.NN v = true ∧ Val.isNum v = true)
+    (v : Val) (hrun : run vs is fs (evalLine y c inst l) = .val v) :
+    Val.NN v = true ∧ Val.isNum v = true :=
+  nnLine_sound_partial3 h inst vs is fs
+    { intToFloat := intToFloatNN, roundFact := h4.roundFact, fstr := h4.fstr, key := h4.key } ha hb v hrun
+
 end HabuVerif.Sign
 
 section AxiomCheck2
@@ -1242,4 +1274,6 @@ open HabuVerif.Sign
 #print axioms thresh_sound
 #print axioms restFacts_of
 #print axioms nnLine_sound_partial3
+#print axioms intToFloatNN
+#print axioms nnLine_sound_partial4
 end AxiomCheck2
